@@ -113,6 +113,8 @@ func freeJobs(r *ev.Run) []job {
 					proch.Event{Kind: "obs", G: 0, D: 0, ObsKind: 2, Claim: n / 2},
 					proch.Event{Kind: "obs", G: outsider, D: 0, ObsKind: 2, Claim: 0},
 					proch.Event{Kind: "obs", G: 0, D: 0, ObsKind: 3},
+					// a member's valid signature with the recovery id written as 27/28: not a signature a VAA can carry, so it does not count
+					proch.Event{Kind: "obs", G: n - 1, D: 0, ObsKind: len(proch.ObsKinds) - 1},
 					proch.Event{Kind: "obs", G: 0, D: 3}, // observation of the governance-emitter message by a member
 					proch.Event{Kind: "in", M: 0, InVar: 0, InSet: 0})
 				return evs
